@@ -273,6 +273,10 @@ func (c *vCluster) prefix(p int, timeouts int) {
 		c.prefixTwoLocks()
 		return
 	}
+	if p == 7 {
+		c.prefixByzantineLedView()
+		return
+	}
 	if p == 5 {
 		env.Assume(c.byz == 2)
 	}
@@ -499,4 +503,57 @@ func (c *vCluster) prefixTwoLocks() {
 	c.flush(nil)
 	c.byzFollow()
 	c.flush(nil)
+}
+
+// prefixByzantineLedView (prefix 7, Byzantine member 1, which leads views 1 and 5):
+//   view 0: the honest leader's proposal reaches nobody; all correct nodes time out; their genuine proof-less votes for
+//           view 1 go to the Byzantine leader of view 1, which behaves: its NEW_VIEW carries those votes and a block X;
+//   view 1: all correct nodes prepare X; the COMMITs (plus a genuine Byzantine one) reach the highest correct node only,
+//           which commits X and is gone; the other two stay locked on X@1;
+//   views 2..5: the two locked nodes time out four times, their votes are lost (the last ones go to the Byzantine
+//           leader of view 5 anyway). Then the adversary moves (symbolic NEW_VIEW) and goes along with what follows.
+func (c *vCluster) prefixByzantineLedView() {
+	env.Assume(c.byz == 1)
+	net := c.wd.net
+	cs := c.correct() // 0, 2, 3
+	lost := func(from, to int, m interfaces.ConsensusMessage) bool { return false }
+	c.flush(lost) // the view-0 proposal is lost
+	for _, i := range cs {
+		c.nodes[i].timeout()
+	}
+	var votes []*interfaces.ViewChangeMessage
+	for _, i := range cs {
+		for _, sm := range c.nodes[i].comm.Out {
+			if vc, ok := sm.Msg.(*interfaces.ViewChangeMessage); ok && vc.View() == 1 {
+				votes = append(votes, vc)
+			}
+		}
+	}
+	env.Assume(len(votes) == 3)
+	x := &stub.Block{H: 1, Tag: 0x61, ProposalOK: true}
+	nv := net.nvm(c.byz, 1, 1, votes, x).ToConsensusRawMessage()
+	c.flush(lost)
+	for _, i := range cs {
+		c.nodes[i].deliver(nv)
+	}
+	noCommits := func(from, to int, m interfaces.ConsensusMessage) bool {
+		_, isC := m.(*interfaces.CommitMessage)
+		return !isC
+	}
+	c.flush(noCommits)
+	last := cs[len(cs)-1]
+	for _, i := range cs[:len(cs)-1] {
+		c.handDeliver(i, last, func(m interfaces.ConsensusMessage) bool {
+			return m.MessageType() == protocol.LEAN_HELIX_COMMIT && m.View() == 1
+		})
+	}
+	c.nodes[last].deliver(net.cm(c.byz, 1, 1, stub.HashOf(x)).ToConsensusRawMessage())
+	env.Assume(len(c.nodes[last].commits) == 1 && len(c.nodes[cs[0]].commits) == 0 && len(c.nodes[cs[1]].commits) == 0)
+	for r := 0; r < 4; r++ {
+		for _, i := range cs[:len(cs)-1] {
+			c.nodes[i].timeout()
+		}
+		c.flush(lost)
+	}
+	env.Assume(c.nodes[cs[0]].m.state.View() == 5)
 }
